@@ -514,7 +514,8 @@ func declAtoi(vc *VC) {
 	vc.decl("c:atoi_err", "(declare-const atoi_err Iface)")
 	vc.decl("ax:atoi_err", "(assert (not (= atoi_err nil_iface)))")
 	vc.decl("ax:atoirange", "(assert (forall ((s Str)) (! (and (<= (- 9223372036854775808) (atoi_val s)) (<= (atoi_val s) 9223372036854775807)) :pattern ((atoi_val s)))))")
-	vc.decl("ax:itoa", "(assert (forall ((i Int)) (! (and (atoi_ok (itoa i)) (= (atoi_val (itoa i)) i)) :pattern ((itoa i)))))")
+	// (restricted to machine integers: together with the range axiom above an unrestricted version would be inconsistent)
+	vc.decl("ax:itoa", "(assert (forall ((i Int)) (! (=> (and (<= (- 9223372036854775808) i) (<= i 9223372036854775807)) (and (atoi_ok (itoa i)) (= (atoi_val (itoa i)) i))) :pattern ((itoa i)))))")
 }
 
 func declErrPreds(vc *VC) {
